@@ -84,7 +84,9 @@ Inductive op : Set :=
 | QBlocking
 | QPending | QRunning | QActive (flag : option bool)
 | QPeek (n : nat) | QQCount
-| QRes (i : nat) | QExc (i : nat) | QHist (i : nat) | QWf (k : nat) | QStored (i : nat) | QRctx (r : nat).
+| QRes (i : nat) | QExc (i : nat) | QHist (i : nat) | QWf (k : nat) | QStored (i : nat) | QRctx (r : nat)
+| QHRange (a b : Z)                                 (* iter_history_in_timerange, all batches together *)
+| QIRange (a b : Z).                                (* iter_invocations_in_timerange, all batches together *)
 
 (* answers.  error classes: 1 transition, 2 ownership, 3 KeyError, 4 InvocationNotFound *)
 Inductive out : Set :=
@@ -199,6 +201,11 @@ Definition sh_step (c : conf) (s : shared) (o : op) : option (shared * out) :=
   | QWf k => Some (s, OOpt (aget k (wfd s)))
   | QHist i => Some (s, ORows (map (fun e => match snd e with (a, b, t) => [Z.of_nat a; Z.of_nat b; t] end)
                                    (filter (fun e => Nat.eqb (fst e) i) (hist s))))
+  | QHRange a b =>
+      Some (s, ORows (map (fun e => match snd e with (x, y, t) => [Z.of_nat (fst e); Z.of_nat x; Z.of_nat y; t] end)
+                          (filter (fun e => match snd e with (_, _, t) => (a <=? t)%Z && (t <=? b)%Z end) (hist s))))
+  | QIRange a b =>
+      Some (s, OIds (norm (map fst (filter (fun e => match snd e with (_, _, t) => (a <=? t)%Z && (t <=? b)%Z end) (hist s)))))
   | QStored i => Some (s, if memb i (stored s) then OOk else OErr 4)
   | QRctx r => Some (s, if memb r (rctx s) then ONat 1 else ONat 0)
   | _ => None
